@@ -694,8 +694,8 @@ class t2listing(object):
         """Parses line of a table and returns starting indices of each column"""
         numpos = [start]
         if columns[0] == 'I': # e.g. ECO2M element table
-          spos = line.find(' ', start + 1)
-          if spos >= 0: numpos.append(spos)
+          # (two-character integer field- the next value may follow without a blank)
+          numpos.append(start + 2)
         from re import finditer,escape
         # find all decimal points:
         pts = [match.start() for match in finditer(escape('.'), line)]
